@@ -120,6 +120,9 @@ def main(tier, replay):
             f = os.path.join(fdir, '%s_%s.parquet' % (n, k))
             if not os.path.exists(f):
                 continue
+            # the output path already holds a LONGER struct file from an earlier run (regenerating over an existing file
+            # must not leave any of it behind)
+            open(os.path.join(rd, 's%s.go' % k), 'w').write('package %s\n\n' % rn + ''.join('type Stale%d struct {\n\tOld%d int64 `parquet:"old%d"`\n\tGone%d *string `parquet:"gone%d"`\n}\n\n' % (i, i, i, i, i) for i in range(40)))
             rc, out = sh([pgen, '-parquet', f, '-type', 'Rec', '-package', rn, '-struct-output', 's%s.go' % k, '-output', 'parquet%s.go.txt' % k], cwd=rd, timeout=120)
             sp = os.path.join(rd, 's%s.go' % k)
             if rc != 0 or not os.path.exists(sp):
@@ -222,6 +225,7 @@ def main(tier, replay):
             c.violations.append((job, v, rp))
     c.programs = len(P)
     c.extra['regenerated_ok'] = len(regen)
+    c.extra['stale_output'] = 'every regeneration runs over an existing, longer struct-output file'
     c.bounds = {'note': 'the wide struct is run with one record, the others with two', 'programs': '%d non-repeated shapes (<= %d nodes, depth <= 3, unique group names, leaves rotating over int32,int64,float32,float64,bool,string, required and optional) + one wide hand-written struct' % (len(P) - 1, 3 if quick else 4),
                 'records': '2 per program, every optional nil/non-nil combination, values symbolic', 'outside': 'structs.Struct / FromParquet / go/format run concretely per program (no symbolic input exists for them); unsigned types (documented as not preserved); repeated fields (excluded by the property)'}
     c.assumptions = [STUB_ASSUMPTIONS[k] for k in ('A1', 'A2', 'A3', 'A4', 'A6')] + ['the regenerated struct text is parsed by the check (regex over the emitted struct file) and compared with the catalogue description of the original']
